@@ -309,8 +309,8 @@ theorem getField_erase (hA : Accepted S = true) {p : String} (h : S.notHidden F 
       | some f => by_cases hr : reqOk F f.req <;> simp [hr]
     · simp [hk]
 
-theorem fieldsListing_erase (hu : (S.types.map (·.name)).Nodup) {p : String} (h : S.notHidden F p = true) :
-    fieldsListing (erase S F) top p = fieldsListing S F p := by
+theorem fieldsListing_erase (hu : (S.types.map (·.name)).Nodup) {p : String} (h : S.notHidden F p = true)
+    (inc : Bool) : fieldsListing (erase S F) top inc p = fieldsListing S F inc p := by
   unfold fieldsListing
   rw [find?_erase_notHidden hu h]
   cases hf : S.find? p with
@@ -318,7 +318,7 @@ theorem fieldsListing_erase (hu : (S.types.map (·.name)).Nodup) {p : String} (h
   | some t =>
     simp only [Option.map_some, eraseType_kind]
     by_cases hk : (t.kind == Kind.object || t.kind == Kind.interface) = true
-    · simp only [hk, ↓reduceIte, eraseType, List.filter_filter, reqOk_top, Bool.true_and]
+    · simp only [hk, ↓reduceIte, eraseType, List.filter_filter, reqOk_top, Bool.and_true, Option.some.injEq]
     · simp only [hk, Bool.false_eq_true, ↓reduceIte]
 
 theorem interfacesOf_erase (hu : (S.types.map (·.name)).Nodup) {p : String} (h : S.notHidden F p = true) :
@@ -394,8 +394,8 @@ theorem inputFields_erase (hu : (S.types.map (·.name)).Nodup) {p : String} (h :
   rw [find?_erase_notHidden hu h]
   cases S.find? p <;> simp [eraseType]
 
-theorem enumValues_erase (hu : (S.types.map (·.name)).Nodup) {p : String} (h : S.notHidden F p = true) :
-    enumValues (erase S F) p = enumValues S p := by
+theorem enumValues_erase (hu : (S.types.map (·.name)).Nodup) {p : String} (h : S.notHidden F p = true)
+    (inc : Bool) : enumValues (erase S F) inc p = enumValues S inc p := by
   unfold enumValues
   rw [find?_erase_notHidden hu h]
   cases S.find? p <;> simp [eraseType]
@@ -496,8 +496,8 @@ theorem getField_closed (hA : Accepted S = true) {p fn : String} {s : FieldSig}
         · simp [hfr] at hg
     · simp [hk] at hg
 
-theorem fieldsListing_closed (hA : Accepted S = true) {p : String} {l : List FieldSig}
-    (h : S.notHidden F p = true) (hg : fieldsListing S F p = some l) : ∀ s ∈ l, SigVis S F s := by
+theorem fieldsListing_closed (hA : Accepted S = true) {p : String} {l : List FieldSig} {inc : Bool}
+    (h : S.notHidden F p = true) (hg : fieldsListing S F inc p = some l) : ∀ s ∈ l, SigVis S F s := by
   unfold fieldsListing at hg
   cases hf : S.find? p with
   | none => simp [hf] at hg
@@ -510,7 +510,11 @@ theorem fieldsListing_closed (hA : Accepted S = true) {p : String} {l : List Fie
       intro s hs
       obtain ⟨f, hfm, rfl⟩ := List.mem_map.mp hs
       have := List.mem_filter.mp hfm
-      exact field_sigVis hA (find?_mem hf) (by simpa using hk) hr this.1 this.2
+      have h2 : reqOk F f.req = true := by
+        have := this.2
+        simp only [Bool.and_eq_true] at this
+        exact this.2
+      exact field_sigVis hA (find?_mem hf) (by simpa using hk) hr this.1 h2
     · simp [hk] at hg
 
 theorem interfacesOf_closed {p : String} {l : List String} (hg : interfacesOf S F p = some l) :
@@ -698,8 +702,8 @@ theorem evalHead_erase {S : Schema} {F : Feats} (hA : Accepted S = true) (hR : R
       have hnh := notHidden_of_visible hv
       simp only [evalHead, view, kindOf_erase hu hnh, fieldsListing_erase hu hnh, interfacesOf_erase hu hnh,
         possibleTypes_erase hA hnh, inputFields_erase hu hnh, enumValues_erase hu hnh]
-      have e1 : optArr (fun s => Json.obj (k (.field s))) (fieldsListing S F p) =
-          optArr (fun s => Json.obj (k' (.field s))) (fieldsListing S F p) :=
+      have e1 : optArr (fun s => Json.obj (k (.field s))) (fieldsListing S F (arg == "true") p) =
+          optArr (fun s => Json.obj (k' (.field s))) (fieldsListing S F (arg == "true") p) :=
         optArr_congr (fun l hl s hs => by rw [hk _ (show NodeVis S F (.field s) from fieldsListing_closed hA hnh hl s hs)])
       have e2 : optArr (fun i => Json.obj (k (.ty (.named i)))) (interfacesOf S F p) =
           optArr (fun i => Json.obj (k' (.ty (.named i)))) (interfacesOf S F p) :=
@@ -710,8 +714,8 @@ theorem evalHead_erase {S : Schema} {F : Feats} (hA : Accepted S = true) (hR : R
       have e4 : optArr (fun a => Json.obj (k (.input a))) (inputFields S p) =
           optArr (fun a => Json.obj (k' (.input a))) (inputFields S p) :=
         optArr_congr (fun l hl a ha => by rw [hk _ (show NodeVis S F (.input a) from inputFields_closed hA hnh hl a ha)])
-      have e5 : optArr (fun e => Json.obj (k (.enumv e))) (enumValues S p) =
-          optArr (fun e => Json.obj (k' (.enumv e))) (enumValues S p) :=
+      have e5 : optArr (fun e => Json.obj (k (.enumv e))) (enumValues S (arg == "true") p) =
+          optArr (fun e => Json.obj (k' (.enumv e))) (enumValues S (arg == "true") p) :=
         optArr_congr (fun l _ e _ => by rw [hk _ (show NodeVis S F (.enumv e) from trivial)])
       rw [e1, e2, e3, e4, e5]
     | list t => simp only [evalHead, hk _ (show NodeVis S F (.ty t) from hn)]
